@@ -2388,6 +2388,7 @@ UNITS = [
     ('ChainA', [('src/stream/chain/array.rs', ['Chain'])]),
     ('RaceA',  [('src/future/race/array.rs', ['Race'])]),
     ('RaceOkA', [('src/future/race_ok/array/mod.rs', ['RaceOk'])]),
+    ('JoinT', [('@tuple/join.rs', ['Join'])]),
     ('WaitF', [('src/future/wait_until.rs', ['State', 'WaitUntil'])]),
     ('WaitS', [('src/stream/wait_until.rs', ['State', 'WaitUntil'])]),
 ]
@@ -2395,7 +2396,8 @@ SKIP_FNS = {('InlineWakerArray', 'new'), ('InlineWakerVec', 'new')}
 
 GROUPS = {'Std': ['StdArr', 'StdVec'], 'Dir': ['DirArr', 'DirVec'], 'Idx': ['Idx'], 'PS': ['PS'], 'Grp': ['GrpF', 'GrpS'],
           'Fam': ['MergeV', 'RaceV'], 'Fam2': ['JoinV'], 'Fam3': ['TryJoinV'], 'Fam4': ['ZipV'], 'Fam5': ['ChainV'],
-          'Arr1': ['JoinA'], 'Arr2': ['TryJoinA'], 'Arr3': ['MergeA'], 'Arr4': ['ZipA'], 'Arr5': ['ChainA'], 'Arr6': ['RaceA'], 'Arr7': ['RaceOkA'], 'Wait': ['WaitF', 'WaitS']}
+          'Arr1': ['JoinA'], 'Arr2': ['TryJoinA'], 'Arr3': ['MergeA'], 'Arr4': ['ZipA'], 'Arr5': ['ChainA'], 'Arr6': ['RaceA'], 'Arr7': ['RaceOkA'], 'Wait': ['WaitF', 'WaitS'],
+          'Tup1': ['JoinT']}
 GROUP_IMPORTS = {'Std': ['Fc.Kernel'], 'Dir': ['Fc.Kernel'], 'Grp': ['FcGen.KSrcStd', 'FcGen.KSrcPS', 'Fc.RustEnv'],
                  'Fam': ['FcGen.KSrcStd', 'FcGen.KSrcPS', 'FcGen.KSrcIdx', 'Fc.RustEnv'],
                  'Fam2': ['FcGen.KSrcStd', 'FcGen.KSrcPS', 'Fc.RustEnv'],
@@ -2405,10 +2407,11 @@ GROUP_IMPORTS = {'Std': ['Fc.Kernel'], 'Dir': ['Fc.Kernel'], 'Grp': ['FcGen.KSrc
                  'Arr1': ['FcGen.KSrcStd', 'FcGen.KSrcPS', 'Fc.RustEnv'], 'Arr2': ['FcGen.KSrcStd', 'FcGen.KSrcPS', 'Fc.RustEnv'],
                  'Arr3': ['FcGen.KSrcStd', 'FcGen.KSrcPS', 'FcGen.KSrcIdx', 'Fc.RustEnv'], 'Arr4': ['FcGen.KSrcStd', 'FcGen.KSrcPS', 'Fc.RustEnv'],
                  'Arr5': ['Fc.RustEnv'], 'Arr6': ['FcGen.KSrcIdx', 'Fc.RustEnv'],
-                 'Arr7': ['FcGen.KSrcPS', 'Fc.RustEnv'], 'Wait': ['Fc.RustEnv']}
+                 'Arr7': ['FcGen.KSrcPS', 'Fc.RustEnv'], 'Wait': ['Fc.RustEnv'],
+                 'Tup1': ['FcGen.KSrcStd', 'FcGen.KSrcPS', 'Fc.RustEnv']}
 GROUP_DEPS = {'Grp': ['Std', 'PS'], 'Fam': ['Std', 'PS', 'Idx'], 'GrpPoll': ['Grp'], 'RaceV': ['Fam'], 'MergeV': ['Fam'], 'JoinV': ['Fam2'], 'TryJoinV': ['Fam3'], 'ChainV': ['Fam5', 'Fam4'], 'ZipV': ['Fam4', 'Fam5'], 'Fam2': ['Std', 'PS'], 'Fam3': ['Std', 'PS'], 'Fam4': ['Std', 'PS'], 'Fam5': [],
               'Arr1': ['Std', 'PS'], 'Arr2': ['Std', 'PS'], 'Arr3': ['Std', 'PS', 'Idx'], 'Arr4': ['Std', 'PS'], 'Arr5': [],
-              'Arr6': ['Idx'], 'Arr7': ['PS'],
+              'Arr6': ['Idx'], 'Arr7': ['PS'], 'Tup1': ['Std', 'PS'],
               # the array proofs reuse the container-independent lemmas of the Vec proof of the SAME family (the lemma files
               # import that family's Vec statements, hence its generated file)
               'JoinA': ['Arr1', 'Fam2'], 'TryJoinA': ['Arr2', 'Fam3'], 'MergeA': ['Arr3', 'Fam'], 'ZipA': ['Arr4'],
@@ -2514,6 +2517,7 @@ REQUIRED = {
     'MergeA': ['MergeA.Merge.poll_next', 'MergeA.Merge.new'], 'ZipA': ['ZipA.Zip.poll_next', 'ZipA.Zip.drop', 'ZipA.Zip.new'],
     'ChainA': ['ChainA.Chain.poll_next'], 'RaceA': ['RaceA.Race.poll'],
     'RaceOkA': ['RaceOkA.RaceOk.poll', 'RaceOkA.RaceOk.drop'],
+    'Tup1': ['JoinT.Join.poll', 'JoinT.Join.drop', 'JoinT.Join.new'],
     'JoinVD': ['JoinV.Join.poll', 'JoinV.Join.drop'], 'JoinAD': ['JoinA.Join.poll', 'JoinA.Join.drop', 'JoinA.Join.new'],
     'TryJoinVD': ['TryJoinV.TryJoin.poll', 'TryJoinV.TryJoin.drop'], 'TryJoinAD': ['TryJoinA.TryJoin.poll', 'TryJoinA.TryJoin.drop', 'TryJoinA.TryJoin.new'],
     'MergeVD': ['MergeV.Merge.poll_next'], 'MergeAD': ['MergeA.Merge.poll_next', 'MergeA.Merge.new'],
@@ -2553,7 +2557,17 @@ def translate_unit(repo, ns, files, report, ext=None):
     mod.out.append("")
     for path, only_types in files:
         try:
-            src = open(os.path.join(repo, path)).read()
+            if path.startswith('@tuple/'):
+                # macro-generated tuple containers: rustc's expansion, normalised over a const generic N (tools/tuple_norm.py)
+                import tuple_norm
+                try:
+                    src = tuple_norm.normalised(repo, path[len('@tuple/'):-len('.rs')])
+                except tuple_norm.NormError as nex:
+                    raise Unsupported('tuple_norm: ' + str(nex))
+                except (IndexError, ValueError, KeyError, AssertionError) as nex:
+                    raise Unsupported('tuple_norm: the expansion has an unexpected shape (%s)' % type(nex).__name__)
+            else:
+                src = open(os.path.join(repo, path)).read()
             parsed = P(tokenize(src)).items()
         except (Unsupported, OSError) as ex:
             report['failed'].append((f"{ns}:{path}", str(ex)))
@@ -2679,7 +2693,7 @@ def translate(repo):
                "", "set_option linter.unusedVariables false", "",
                "namespace Fc.Src", "open Fc", ""]
         ext = None
-        if g in ('Grp', 'Fam', 'Fam2', 'Fam3', 'Fam4', 'Fam5') or g.startswith('Arr'):
+        if g in ('Grp', 'Fam', 'Fam2', 'Fam3', 'Fam4', 'Fam5') or g.startswith('Arr') or g.startswith('Tup'):
             mods = report.get('_mods', {})
             ext = {'structs': {}, 'enums': {}, 'fns': {}}
             sv, ps = mods.get('StdVec'), mods.get('PS')
